@@ -157,10 +157,21 @@ func (vm *VM) directive(ctx context.Context, text *text, d Term) error {
 		text.goals = append(text.goals, arg(0))
 		return nil
 	case procedureIndicator{name: atomInclude, arity: 1}:
-		_, b, err := vm.open(arg(0), nil)
+		f, b, err := vm.open(arg(0), nil)
 		if err != nil {
 			return err
 		}
+
+		// A file that includes itself, directly or not, would be included over and over until the stack overflows.
+		for _, i := range text.including {
+			if i == f {
+				return permissionError(operationOpen, permissionTypeSourceSink, arg(0), nil)
+			}
+		}
+		text.including = append(text.including, f)
+		defer func() {
+			text.including = text.including[:len(text.including)-1]
+		}()
 
 		return vm.compile(ctx, text, string(b))
 	case procedureIndicator{name: atomEnsureLoaded, arity: 1}:
@@ -228,6 +239,9 @@ type text struct {
 	buf     clauses
 	clauses map[procedureIndicator]*userDefined
 	goals   []Term
+
+	// including is the files being included, the outermost first.
+	including []string
 }
 
 func (t *text) forEachUserDefined(pi Term, f func(u *userDefined)) error {
